@@ -15,6 +15,8 @@ def run(chk):
     tablerules.t3_refs(chk, vts)
     tablerules.t5_datatypes(chk, vts, base)
     tablerules.t7_orphans(chk, vts)
+    chk.rule('T8', 'every table module of a version package imports only tables of its own version')
+    tablerules.own_package_imports(chk, index.root, 'T8')
     c = ctxmod.get()
     codelemmas.encoder_order(chk, c, 'C02-K1')
     codelemmas.ordinal_naming(chk, c, 'C02-K2')
